@@ -277,7 +277,7 @@ type HistCase struct {
 }
 
 func genHist(t *rapid.T) HistCase {
-	return HistCase{*hist.Gen(t, hist.Options{CSP: true, MaxOps: 16, BadMembers: true, RuntimeBad: true, Unbalanced: rapid.Bool().Draw(t, "unbalanced"), MixedHelpers: rapid.Bool().Draw(t, "mixed"), Clones: true, ParseAfter: true, FileOps: true, ReadOnlyOps: true})}
+	return HistCase{*hist.Gen(t, hist.Options{CSP: true, Emptied: rapid.IntRange(0, 3).Draw(t, "emptied") == 0, MaxOps: 16, BadMembers: true, RuntimeBad: true, Unbalanced: rapid.Bool().Draw(t, "unbalanced"), MixedHelpers: rapid.Bool().Draw(t, "mixed"), Clones: true, ParseAfter: true, FileOps: true, ReadOnlyOps: true})}
 }
 
 func checkHist(c HistCase) evid.Outcome {
